@@ -106,6 +106,26 @@ def kwargs_for(fn, opt):
     return {"serialization_options": dict(OPTS[opt])}
 
 
+POSITIONAL = {"sort", "srcidx"}  # these option sets are passed BY POSITION (documented parameter order)
+
+
+def call(obj_or_cls, name, payload, opt):
+    """Invoke one entry point, by keyword or - for two option sets - by position."""
+    kw = kwargs_for(name, opt)
+    f = getattr(obj_or_cls, name)
+    args = [] if payload is None else [payload]
+    if opt in POSITIONAL and "serialization_options" in kw:
+        so = kw["serialization_options"]
+        if name in ("as_dict", "to_yaml", "from_yaml"):
+            return f(*args, None, so)            # (mashumaro_dialect, serialization_options)
+        if name in ("to_json",):
+            return f(*args, indent=False, serialization_options=so)   # keyword-only in the API
+        if name in ("as_obj",):
+            return f(*args, serialization_options=so)                 # keyword-only in the API
+        return f(*args, so)                      # to_msgpck(opts), from_json(value, opts), from_msgpck(value, opts)
+    return f(*args, **kw)
+
+
 def mappings(x, path=()):
     """All nested dicts of a payload with their paths."""
     out = []
@@ -238,7 +258,7 @@ def execute(rec, clean, inst, root, seqname):
         kw = kwargs_for(SER[fmt], opt)
         ARMED[0] = fault
         try:
-            res = getattr(root, SER[fmt])(**kw)
+            res = call(root, SER[fmt], None, opt)
             raised = None
         except Exception as e:  # noqa: BLE001
             # keep no exception object: its traceback would keep partially built objects alive (DESIGN 1.3)
@@ -275,7 +295,7 @@ def execute(rec, clean, inst, root, seqname):
                     set_at(payload, path, 17)
         kw = kwargs_for(DES[fmt], opt)
         try:
-            getattr(SN, DES[fmt])(encode(fmt, payload), **kw)
+            call(SN, DES[fmt], encode(fmt, payload), opt)
             raised = None
         except Exception as e:  # noqa: BLE001
             raised = type(e).__name__
